@@ -330,7 +330,13 @@ func (g *gen) fill(v reflect.Value, depth int, top bool) {
 }
 
 func (g *gen) any(depth int) interface{} {
-	k := g.r.Intn(9)
+	k := g.r.Intn(12)
+	switch k {
+	case 9, 10:
+		k = 5 // nested arrays and objects are where the JSON codecs' code is
+	case 11:
+		k = 6
+	}
 	if depth >= g.o.MaxDepth && k >= 5 && k <= 6 {
 		k = 1
 	}
